@@ -30,6 +30,11 @@ type c03Pair struct {
 	Via   string            // "" | include: both documents are loaded as an included file whose .env holds Env
 	Extra map[string]any    // extra service attributes for both documents
 	Key   string            // distinctness key (short text)
+	// what happens to the value after it was read: "" nothing | extends: it is declared on a base service that
+	// `svc` extends in the same file | document: a second `---` document mentions the service again. Both
+	// spellings meet the same continuation, which may refine one entry (Refine, at Path, long spelling)
+	Ctx    string
+	Refine any
 }
 
 type c03Case struct {
@@ -42,6 +47,7 @@ type c03Case struct {
 	Key      string            `json:"key"`
 	Env      map[string]string `json:"env,omitempty"`
 	Via      string            `json:"via,omitempty"`
+	Ctx      string            `json:"ctx,omitempty"`
 }
 
 func (p c03Pair) toCase() c03Case {
@@ -54,6 +60,21 @@ func (p c03Pair) toCase() c03Case {
 			setPath(svc, cloneTree(val), p.Path...)
 		}
 		doc := map[string]any{"services": map[string]any{"svc": svc, "other": map[string]any{"image": "busybox"}, "third": map[string]any{"image": "busybox"}}}
+		var second map[string]any
+		if len(p.Path) > 0 {
+			again := map[string]any{"labels": map[string]any{"mentioned": "again"}}
+			if p.Refine != nil {
+				setPath(again, cloneTree(p.Refine), p.Path...)
+			}
+			switch p.Ctx {
+			case "extends":
+				again["extends"] = map[string]any{"service": "base0"}
+				doc["services"].(map[string]any)["base0"] = svc
+				doc["services"].(map[string]any)["svc"] = again
+			case "document":
+				second = map[string]any{"services": map[string]any{"svc": again}}
+			}
+		}
 		for k, v := range p.Top {
 			doc[k] = cloneTree(v)
 		}
@@ -64,9 +85,12 @@ func (p c03Pair) toCase() c03Case {
 				doc[k] = cloneTree(v)
 			}
 		}
+		if second != nil {
+			return emitYAML(doc, nil) + "---\n" + emitYAML(second, nil)
+		}
 		return emitYAML(doc, nil)
 	}
-	return c03Case{Attr: p.Attr, ShortDoc: mk(p.Short, p.TopS), LongDoc: mk(p.Long, p.TopL), Files: p.Files, Opts: p.Opts, Key: p.Attr + "|" + p.Key + "|" + p.Via + jsonKey(p.Env) + jsonKey(p.Opts), Env: p.Env, Via: p.Via}
+	return c03Case{Attr: p.Attr, ShortDoc: mk(p.Short, p.TopS), LongDoc: mk(p.Long, p.TopL), Files: p.Files, Opts: p.Opts, Key: p.Attr + "|" + p.Key + "|" + p.Via + p.Ctx + jsonKey(p.Env) + jsonKey(p.Opts), Env: p.Env, Via: p.Via, Ctx: p.Ctx}
 }
 
 // ---- printers written from the grammars ----
@@ -729,6 +753,19 @@ func genC03(t *rapid.T) c03Case {
 		p.Files = true
 		p.Key = fmt.Sprint(form)
 	}
+	// both spellings meet the same continuation: a service extending the one that carries the value, or a
+	// second document mentioning the service again, with or without a refinement of one entry
+	if kind != "extends" && kind != "include" && len(p.Path) > 0 {
+		p.Ctx = rapid.SampledFrom([]string{"", "", "extends", "document"}).Draw(t, "continuation")
+		if p.Ctx != "" && rapid.Bool().Draw(t, "refine") {
+			switch kind {
+			case "depends_on":
+				p.Refine = map[string]any{"other": map[string]any{"condition": "service_healthy"}}
+			case "networks":
+				p.Refine = map[string]any{"front": map[string]any{"aliases": []any{"al"}}}
+			}
+		}
+	}
 	// both spellings go through the same pipeline, whatever parts of it the caller switches off. (Not
 	// SkipDefaultValues: a short form spells defaults out that a long form may leave to that step. Not
 	// NoResolvePaths together with files: unresolved files are looked up in the process directory.)
@@ -764,6 +801,9 @@ func c03Check(c *Ctx, cs c03Case) *Failure {
 	c.Label("attr:" + cs.Attr)
 	if cs.Via != "" {
 		c.Label("via:" + cs.Via)
+	}
+	if cs.Ctx != "" {
+		c.Label("continuation:" + cs.Ctx)
 	}
 	if len(cs.Env) > 0 {
 		c.Label("valueless-entry-defined-in-environment")
